@@ -36,6 +36,7 @@ pub mod fmeth {
     pub uninterp spec fn f_powi(x: f64, n: i32) -> f64;
     pub uninterp spec fn f_powf(x: f64, y: f64) -> f64;
     pub uninterp spec fn f_is_nan(x: f64) -> bool;
+    pub uninterp spec fn f_is_infinite(x: f64) -> bool;
     pub uninterp spec fn f_fmax(x: f64, y: f64) -> f64;
     pub uninterp spec fn f_fmin(x: f64, y: f64) -> f64;
 
@@ -71,6 +72,7 @@ pub mod fmeth {
     pub assume_specification [f64::powi](x: f64, n: i32) -> (r: f64) ensures r == f_powi(x, n);
     pub assume_specification [f64::powf](x: f64, y: f64) -> (r: f64) ensures r == f_powf(x, y);
     pub assume_specification [f64::is_nan](x: f64) -> (r: bool) ensures r == f_is_nan(x);
+    pub assume_specification [f64::is_infinite](x: f64) -> (r: bool) ensures r == f_is_infinite(x);
     pub assume_specification [f64::max](x: f64, y: f64) -> (r: f64) ensures r == f_fmax(x, y);
     pub assume_specification [f64::min](x: f64, y: f64) -> (r: f64) ensures r == f_fmin(x, y);
 
